@@ -479,7 +479,20 @@ func c17SingleAdmitter(c *core.Ctx, r *core.Report, a *locks.Analysis, sm *summa
 				continue
 			}
 			for _, d := range decisions {
-				if core.BoolKnownAt(d, ci.Block()) != core.Maybe {
+				// the registering call lies after the test (in the arm the test guards, or — where the test
+				// guards the removal from the waiting queue and the registration is made for what was removed —
+				// anywhere the test's outcome flows to)
+				after := core.BoolKnownAt(d, ci.Block()) != core.Maybe
+				if !after {
+					core.WalkForward(f, d.(ssa.Instruction), func(in ssa.Instruction) bool {
+						if in == ssa.Instruction(ci) {
+							after = true
+							return false
+						}
+						return true
+					})
+				}
+				if after {
 					adm = append(adm, admitter{f, d.(ssa.Instruction), ci})
 					break
 				}
